@@ -1,18 +1,515 @@
 /-
-Layer 8: model of SQL compilation (placeholder; filled in below).
+Layer 8: model of SQL generation (`sql/_engine.py::to_executable`, `_select_to_executable`,
+`to_payload`, `convert_column_expression`, `convert_predicate`, `convert_sort_term`) into a small
+SQL syntax tree, a list semantics of that syntax (MODELLED, NOT VERIFIED: it is validated against
+SQLite on every generated query), and a static acceptance judgement for SQLite.
 -/
 import DafRel.Model.Apply
 import DafRel.Model.Sem
 
 namespace DafRel
 
+/-- Scalar SQL expressions.  `col src t` is column `t` of the FROM item named `src`
+(`src = ""` refers to an output column of a compound select). -/
+inductive SqlExpr where
+  | lit (v : Int)
+  | col (src : String) (t : Tag)
+  | fn (f : Fn) (args : List SqlExpr)
+deriving Repr, Inhabited
+
+/-- Boolean SQL expressions as produced by `convert_predicate`. -/
+inductive SqlPred where
+  | lit (b : Bool)
+  | col (src : String) (t : Tag)
+  | fn (f : PFn) (args : List SqlExpr)
+  | not (p : SqlPred)
+  | and (ps : List SqlPred)
+  | or (ps : List SqlPred)
+  | eqLit (x : SqlExpr) (v : Int)                       -- `item = start`
+  | between (x : SqlExpr) (lo hi : Int)                 -- `item BETWEEN lo AND hi`
+  | modEq (x : SqlExpr) (step r : Int)                  -- `item % step = r`
+  | inList (x : SqlExpr) (xs : List SqlExpr)            -- `item IN (...)`
+deriving Repr, Inhabited
+
+mutual
+inductive From where
+  | table (name : String) (oid : Nat) (rows : Nat)      -- payload table #`rows` (index into the table store)
+  | subquery (alias : String) (q : Query)
+  | join (l r : From) (on : List SqlPred)
+inductive Query where
+  | select (items : List (Tag × SqlExpr)) (frm : From) (wh : List SqlPred) (distinct : Bool)
+           (orderBy : List (SqlExpr × Bool)) (offset : Nat) (limit : Option Nat)
+  | compound (all : Bool) (l r : Query) (cols : Cols)
+             (orderBy : List (SqlExpr × Bool)) (offset : Nat) (limit : Option Nat)
+end
+
+instance : Inhabited From := ⟨.table "" 0 0⟩
+instance : Inhabited Query := ⟨.select [] default [] false [] 0 none⟩
+
+/-- `sql.Payload`: FROM clause, WHERE terms, `columns_available`. -/
+structure SqlPayload where
+  frm : From
+  wh : List SqlPred := []
+  avail : List (Tag × SqlExpr) := []
+deriving Inhabited
+
+def SqlPayload.lookup (p : List (Tag × SqlExpr)) (t : Tag) : Option SqlExpr :=
+  (p.find? (·.1 == t)).map (·.2)
+
+/-- `{**a, **b}` on `columns_available` dictionaries. -/
+def availMerge (a b : List (Tag × SqlExpr)) : List (Tag × SqlExpr) :=
+  a.filter (fun x => (b.find? (·.1 == x.1)).isNone) ++ b
+
+def availSet (a : List (Tag × SqlExpr)) (t : Tag) (e : SqlExpr) : List (Tag × SqlExpr) :=
+  if (a.find? (·.1 == t)).isSome then a.map (fun x => if x.1 == t then (t, e) else x) else a ++ [(t, e)]
+
+/-- SQL-side state: payloads of SQL-engine leaves / processed markers by allocation id, the
+rows of every table, and a counter for anonymous subquery aliases. -/
 structure SqlState where
-  payloads : List (Nat × List Row) := []
+  payloads : List (Nat × SqlPayload) := []
+  tables : List (List Row) := []
 deriving Inhabited
 
 def SqlState.hasPayload (s : SqlState) (oid : Nat) : Bool := (s.payloads.find? (·.1 == oid)).isSome
+def SqlState.payload (s : SqlState) (oid : Nat) : Option SqlPayload := (s.payloads.find? (·.1 == oid)).map (·.2)
 
-def sqlRun (_σ : Leaves) (_sq : SqlState) (_st : Store) (_r : Rel) : Except Err (List Row × Bool) :=
-  .error .notImpl
+/-! ### Expression conversion -/
+
+mutual
+/-- `convert_column_expression(expression, columns_available)`; `KeyError` for a missing column. -/
+def convExpr (avail : List (Tag × SqlExpr)) : Expr → Except Err SqlExpr
+  | .lit v => .ok (.lit v)
+  | .ref t => match SqlPayload.lookup avail t with
+    | some e => .ok e
+    | none => .error .key
+  | .fn f args _ => match convExprs avail args with
+    | .error e => .error e
+    | .ok as => .ok (.fn f as)
+def convExprs (avail : List (Tag × SqlExpr)) : List Expr → Except Err (List SqlExpr)
+  | [] => .ok []
+  | e :: es => match convExpr avail e with
+    | .error err => .error err
+    | .ok x => match convExprs avail es with
+      | .error err => .error err
+      | .ok xs => .ok (x :: xs)
+end
+
+mutual
+/-- `convert_predicate(predicate, columns_available)`. -/
+def convPred (avail : List (Tag × SqlExpr)) : Pred → Except Err SqlPred
+  | .lit b => .ok (.lit b)
+  | .ref t => match SqlPayload.lookup avail t with
+    | some (.col s c) => .ok (.col s c)
+    | some e => .ok (.fn (.other "truth") [e])
+    | none => .error .key
+  | .fn f args _ => match convExprs avail args with
+    | .error e => .error e
+    | .ok as => .ok (.fn f as)
+  | .not p => match convPred avail p with
+    | .error e => .error e
+    | .ok q => .ok (.not q)
+  | .and ps =>
+    match convPreds avail ps with
+    | .error e => .error e
+    | .ok [] => .ok (.lit true)
+    | .ok [q] => .ok q
+    | .ok qs => .ok (.and qs)
+  | .or ps =>
+    match convPreds avail ps with
+    | .error e => .error e
+    | .ok [] => .ok (.lit false)
+    | .ok [q] => .ok q
+    | .ok qs => .ok (.or qs)
+  | .inC item c =>
+    match convExpr avail item with
+    | .error e => .error e
+    | .ok x =>
+      match c with
+      | .range start0 stop0 step0 =>
+        -- `if not value: return literal(False)`
+        if (step0 > 0 && start0 ≥ stop0) || (step0 < 0 && start0 ≤ stop0) || step0 == 0 then .ok (.lit false)
+        else
+          -- `if value.step < 0: value = value[::-1]` (same members, ascending)
+          let (start, stop, step) : Int × Int × Int :=
+            if step0 < 0 then
+              let n := (start0 - stop0 - 1) / (-step0) + 1
+              (start0 + (n - 1) * step0, start0 - step0, -step0)
+            else (start0, stop0, step0)
+          let stopIncl := stop - 1
+          if start == stopIncl then .ok (.eqLit x start)
+          else if step != 1 then
+            if start < 0 then
+              .ok (.and [.between x start stopIncl, .modEq (.fn .sub [x, .lit start]) step 0])
+            else .ok (.and [.between x start stopIncl, .modEq x step (start.fmod step)])
+          else .ok (.between x start stopIncl)
+      | .seq items =>
+        match convExprs avail items with
+        | .error e => .error e
+        | .ok xs => .ok (.inList x xs)
+def convPreds (avail : List (Tag × SqlExpr)) : List Pred → Except Err (List SqlPred)
+  | [] => .ok []
+  | p :: ps => match convPred avail p with
+    | .error e => .error e
+    | .ok q => match convPreds avail ps with
+      | .error e => .error e
+      | .ok qs => .ok (q :: qs)
+end
+
+/-- `convert_flattened_predicate`. -/
+def convFlattened (avail : List (Tag × SqlExpr)) (p : Pred) : Except Err (List SqlPred) :=
+  match p.flattenAnd with
+  | none => .ok [.lit false]
+  | some ps => convPreds avail ps
+
+/-! ### Compilation -/
+
+def Rel.payloadSql (s : SqlState) (r : Rel) : Option SqlPayload :=
+  match r with
+  | .unary .. => none
+  | .binary .. => none
+  | _ => s.payload r.oid
+
+def subAvail (alias : String) (cols : Cols) : List (Tag × SqlExpr) :=
+  cols.foldl (fun acc t => if (acc.find? (·.1 == t)).isSome then acc else acc ++ [(t, SqlExpr.col alias t)]) []
+
+mutual
+/-- `_select_to_executable(select, ())`; the `Nat` threads the anonymous-alias counter. -/
+def compileSelect (s : SqlState) : Nat → Rel → Nat → Except Err (Query × Nat)
+  | 0, _, _ => .error .fuel
+  | fuel+1, sel, ctr =>
+    match sel with
+    | .select _ sort _ dedup sliceStart sliceStop skipTo _ target =>
+      let limit : Option Nat := sliceStop.map (· - sliceStart)
+      match skipTo with
+      | .binary .chain l r _ =>
+        match l, r with
+        | .select .., .select .. =>
+          match compileSelect s fuel l ctr with
+          | .error e => .error e
+          | .ok (ql, c1) =>
+            match compileSelect s fuel r c1 with
+            | .error e => .error e
+            | .ok (qr, c2) =>
+              let avail := subAvail "" skipTo.columns
+              match sort.mapM (fun t => (convExpr avail t.expr).map (fun e => (e, t.asc))) with
+              | .error e => .error e
+              | .ok ob => .ok (.compound (!dedup) ql qr skipTo.columns ob sliceStart limit, c2)
+        | _, _ => .error .attribute          -- `cast(Select, lhs).skip_to` on a non-Select
+      | _ =>
+        let pay : Except Err (SqlPayload × Nat) :=
+          match skipTo.payloadSql s with
+          | some p => .ok (p, ctr)
+          | none => toPayload s fuel skipTo ctr
+        match pay with
+        | .error e => .error e
+        | .ok (p, c1) =>
+          match target.columns.mapM (fun t => (SqlPayload.lookup p.avail t).map (fun e => (t, e))) with
+          | none => .error .key
+          | some items =>
+            -- de-duplicate the select list (a dict keyed by tag)
+            let items := items.foldl (fun acc x => if (acc.find? (·.1 == x.1)).isSome then acc else acc ++ [x]) []
+            match sort.mapM (fun t => (convExpr p.avail t.expr).map (fun e => (e, t.asc))) with
+            | .error e => .error e
+            | .ok ob => .ok (.select items p.frm p.wh dedup ob sliceStart limit, c1)
+    | _ => .error .attribute
+
+/-- `to_payload(relation)`. -/
+def toPayload (s : SqlState) : Nat → Rel → Nat → Except Err (SqlPayload × Nat)
+  | 0, _, _ => .error .fuel
+  | fuel+1, r, ctr =>
+    match r.payloadSql s with
+    | some p => .ok (p, ctr)
+    | none =>
+      match r with
+      | .unary (.calc tag e) t _ =>
+        match toPayload s fuel t ctr with
+        | .error err => .error err
+        | .ok (p, c1) =>
+          match convExpr p.avail e with
+          | .error err => .error err
+          | .ok x => .ok ({ p with avail := availSet p.avail tag x }, c1)
+      | .unary (.sel pr) t _ =>
+        match toPayload s fuel t ctr with
+        | .error err => .error err
+        | .ok (p, c1) =>
+          match convFlattened p.avail pr with
+          | .error err => .error err
+          | .ok ws => .ok ({ p with wh := p.wh ++ ws }, c1)
+      | .binary (.join j) l rr _ =>
+        match toPayload s fuel l ctr with
+        | .error err => .error err
+        | .ok (pl, c1) =>
+          match toPayload s fuel rr c1 with
+          | .error err => .error err
+          | .ok (pr, c2) =>
+            match j.commonColumns with
+            | .error err => .error err
+            | .ok common =>
+              let onCommon : Option (List SqlPred) := common.mapM (fun t =>
+                match SqlPayload.lookup pl.avail t, SqlPayload.lookup pr.avail t with
+                | some a, some b => some (SqlPred.fn .eq [a, b])
+                | _, _ => none)
+              match onCommon with
+              | none => .error .key
+              | some oc =>
+                let avail := availMerge pl.avail pr.avail
+                let extra : Except Err (List SqlPred) :=
+                  if j.pred.asTrivial == some true then .ok [] else convFlattened avail j.pred
+                match extra with
+                | .error err => .error err
+                | .ok ex =>
+                  .ok ({ frm := .join pl.frm pr.frm (oc ++ ex), wh := pl.wh ++ pr.wh, avail := avail }, c2)
+      | .select .. =>
+        match compileSelect s fuel r ctr with
+        | .error err => .error err
+        | .ok (q, c1) =>
+          let alias := s!"anon_{c1 + 1}"
+          .ok ({ frm := .subquery alias q, avail := subAvail alias r.columns }, c1 + 1)
+      | .mat .. => .error .engine
+      | .transfer .. => .error .engine
+      | _ => .error .notImpl
+end
+
+/-! ### List semantics of the generated SQL (modelled; validated against SQLite) -/
+
+/-- Environment of a FROM clause: physical column -> value. -/
+abbrev PEnv := String → Tag → Option Int
+
+def PEnv.merge (a b : PEnv) : PEnv := fun s t => match a s t with
+  | some v => some v
+  | none => b s t
+
+/-- SQLite's `%`: truncating remainder; `NULL` (none) for a zero divisor. -/
+def sqliteMod (x m : Int) : Option Int := if m = 0 then none else some (x.tmod m)
+
+mutual
+def SqlExpr.eval (env : PEnv) : SqlExpr → Option Int
+  | .lit v => some v
+  | .col s t => env s t
+  | .fn f args => match SqlExpr.evalList env args with
+    | none => none
+    | some vs => f.apply vs
+def SqlExpr.evalList (env : PEnv) : List SqlExpr → Option (List Int)
+  | [] => some []
+  | e :: es => match SqlExpr.eval env e with
+    | none => none
+    | some v => match SqlExpr.evalList env es with
+      | none => none
+      | some vs => some (v :: vs)
+end
+
+mutual
+/-- Truth value of a boolean SQL expression on NULL-free integer data (missing = false). -/
+def SqlPred.eval (env : PEnv) : SqlPred → Bool
+  | .lit b => b
+  | .col s t => (env s t).getD 0 != 0
+  | .fn f args => match SqlExpr.evalList env args with
+    | none => false
+    | some vs => (f.apply vs).getD false
+  | .not p => !(SqlPred.eval env p)
+  | .and ps => SqlPred.evalAll env ps
+  | .or ps => SqlPred.evalAny env ps
+  | .eqLit x v => SqlExpr.eval env x == some v
+  | .between x lo hi => match SqlExpr.eval env x with
+    | some v => decide (lo ≤ v) && decide (v ≤ hi)
+    | none => false
+  | .modEq x step r => match SqlExpr.eval env x with
+    | some v => sqliteMod v step == some r
+    | none => false
+  | .inList x xs => match SqlExpr.eval env x, SqlExpr.evalList env xs with
+    | some v, some vs => vs.contains v
+    | _, _ => false
+def SqlPred.evalAll (env : PEnv) : List SqlPred → Bool
+  | [] => true
+  | p :: ps => SqlPred.eval env p && SqlPred.evalAll env ps
+def SqlPred.evalAny (env : PEnv) : List SqlPred → Bool
+  | [] => false
+  | p :: ps => SqlPred.eval env p || SqlPred.evalAny env ps
+end
+
+def rowEnv (src : String) (r : Row) : PEnv := fun s t => if s == src then r t else none
+
+/-- Compare two key tuples under per-term direction (NULL-free). -/
+def keysLe : List (Int × Bool) → List (Int × Bool) → Bool
+  | [], _ => true
+  | _, [] => true
+  | (a, asc) :: as, (b, _) :: bs =>
+    if a = b then keysLe as bs else if asc then decide (a < b) else decide (a > b)
+
+def keysEq (a b : List (Int × Bool)) : Bool := (a.map (·.1)) == (b.map (·.1))
+
+structure EvalOut where
+  rows : List Row
+  /-- every OFFSET/LIMIT so far was applied to a totally ordered (or fully included) input -/
+  det : Bool
+  /-- this level ends with an ORDER BY that is total on its rows -/
+  total : Bool
+deriving Inhabited
+
+def rowEqOn (cols : Cols) (a b : Row) : Bool := a.proj cols == b.proj cols
+
+/-- DISTINCT on (row, keys) pairs: first occurrence of each distinct row. -/
+def distinctPairs (cols : Cols) : List (Row × List (Int × Bool)) → List (List (Option Int)) →
+    List (Row × List (Int × Bool))
+  | [], _ => []
+  | (r, k) :: rest, seen =>
+    if seen.contains (r.proj cols) then distinctPairs cols rest seen
+    else (r, k) :: distinctPairs cols rest (r.proj cols :: seen)
+
+/-- Is the stable sort result totally ordered: adjacent ties only between equal rows. -/
+def orderTotal (cols : Cols) : List (Row × List (Int × Bool)) → Bool
+  | [] => true
+  | [_] => true
+  | (r1, k1) :: (r2, k2) :: rest =>
+    (!(keysEq k1 k2) || rowEqOn cols r1 r2) && orderTotal cols ((r2, k2) :: rest)
+
+def finishLevel (cols : Cols) (pairs : List (Row × List (Int × Bool))) (hasOrder : Bool)
+    (offset : Nat) (limit : Option Nat) (detIn : Bool) : EvalOut :=
+  let sorted := if hasOrder then isort (fun a b => keysLe a.2 b.2) pairs else pairs
+  let total := hasOrder && orderTotal cols sorted
+  let allSame := match sorted with
+    | [] => true
+    | (r0, _) :: rest => rest.all (fun p => rowEqOn cols p.1 r0)
+  let n := sorted.length
+  let sliced := sliceList offset (limit.map (· + offset)) sorted
+  let sliceDet := (offset == 0 && (match limit with | none => true | some l => l ≥ n)) || total || allSame
+  { rows := sliced.map (·.1), det := detIn && sliceDet, total := total }
+
+mutual
+def From.envs (tables : List (List Row)) : From → List PEnv × Bool
+  | .table name _ idx => ((tables.getD idx []).map (rowEnv name), true)
+  | .subquery alias q =>
+    let out := Query.eval tables q
+    (out.rows.map (rowEnv alias), out.det)
+  | .join l r on =>
+    let (le, ld) := From.envs tables l
+    let (re, rd) := From.envs tables r
+    (le.flatMap (fun a => (re.filter (fun b => SqlPred.evalAll (a.merge b) on)).map (fun b => a.merge b)),
+     ld && rd)
+
+def Query.eval (tables : List (List Row)) : Query → EvalOut
+  | .select items frm wh distinct orderBy offset limit =>
+    let (envs, d0) := From.envs tables frm
+    let envs := envs.filter (fun e => SqlPred.evalAll e wh)
+    let cols := items.map (·.1)
+    let pairs : List (Row × List (Int × Bool)) := envs.map (fun e =>
+      (fun t => match items.find? (·.1 == t) with
+                | some (_, x) => SqlExpr.eval e x
+                | none => none,
+       orderBy.map (fun (x, asc) => ((SqlExpr.eval e x).getD 0, asc))))
+    let pairs := if distinct then distinctPairs cols pairs [] else pairs
+    finishLevel cols pairs (!orderBy.isEmpty) offset limit d0
+  | .compound all l r cols orderBy offset limit =>
+    let lo := Query.eval tables l
+    let ro := Query.eval tables r
+    let rows := lo.rows ++ ro.rows
+    let pairs : List (Row × List (Int × Bool)) := rows.map (fun row =>
+      (row, orderBy.map (fun (x, asc) => ((SqlExpr.eval (rowEnv "" row) x).getD 0, asc))))
+    let pairs := if all then pairs else distinctPairs cols pairs []
+    finishLevel cols pairs (!orderBy.isEmpty) offset limit (lo.det && ro.det)
+end
+
+/-! ### What SQLite rejects (modelled; validated) -/
+
+mutual
+def From.names : From → List String
+  | .table name _ _ => [name]
+  | .subquery alias _ => [alias]
+  | .join l r _ => From.names l ++ From.names r
+end
+
+def SqlExpr.isPlainCol : SqlExpr → Bool
+  | .col _ _ => true
+  | _ => false
+
+mutual
+def SqlExpr.srcs : SqlExpr → List String
+  | .lit _ => []
+  | .col s _ => [s]
+  | .fn _ args => SqlExpr.srcsList args
+def SqlExpr.srcsList : List SqlExpr → List String
+  | [] => []
+  | e :: es => SqlExpr.srcs e ++ SqlExpr.srcsList es
+end
+
+mutual
+def SqlPred.srcs : SqlPred → List String
+  | .lit _ => []
+  | .col s _ => [s]
+  | .fn _ args => SqlExpr.srcsList args
+  | .not p => SqlPred.srcs p
+  | .and ps => SqlPred.srcsList ps
+  | .or ps => SqlPred.srcsList ps
+  | .eqLit x _ => x.srcs
+  | .between x _ _ => x.srcs
+  | .modEq x _ _ => x.srcs
+  | .inList x xs => x.srcs ++ SqlExpr.srcsList xs
+def SqlPred.srcsList : List SqlPred → List String
+  | [] => []
+  | p :: ps => SqlPred.srcs p ++ SqlPred.srcsList ps
+end
+
+mutual
+def From.onSrcs : From → List String
+  | .table .. => []
+  | .subquery .. => []
+  | .join l r on => From.onSrcs l ++ From.onSrcs r ++ SqlPred.srcsList on
+end
+
+mutual
+def From.accepts : From → Bool
+  | .table .. => true
+  | .subquery _ q => Query.accepts q
+  | .join l r _ =>
+    From.accepts l && From.accepts r &&
+      -- a right-nested join is parenthesised; SQLite expands it as `SELECT *`, which is
+      -- ambiguous when two of its items carry the same name
+      (match r with
+       | .join .. => (From.names r).eraseDups.length == (From.names r).length
+       | _ => true)
+/-- A column reference whose FROM-item name occurs twice is ambiguous; compound operands are
+simple selects (no parenthesised compound, no ORDER BY/LIMIT inside an operand); ORDER BY terms
+of a compound are plain result columns. -/
+def Query.accepts : Query → Bool
+  | .select items frm wh _ orderBy _ _ =>
+    let names := From.names frm
+    let refs := SqlExpr.srcsList (items.map (·.2)) ++ SqlPred.srcsList wh ++ From.onSrcs frm ++
+      SqlExpr.srcsList (orderBy.map (·.1))
+    From.accepts frm && refs.all (fun s => (names.filter (· == s)).length ≤ 1)
+  | .compound _ l r _ orderBy _ _ =>
+    Query.accepts l && Query.accepts r && Query.isSimple l && Query.isSimple r &&
+      orderBy.all (fun p => p.1.isPlainCol)
+def Query.isSimple : Query → Bool
+  | .select _ _ _ _ orderBy offset limit => orderBy.isEmpty && offset == 0 && limit.isNone
+  | .compound .. => false
+end
+
+mutual
+/-- Some FROM clause of the query names the same item twice (a self-join without aliasing):
+SQLite's resolution of such references is outside the model. -/
+def From.hasDup : From → Bool
+  | .table .. => false
+  | .subquery _ q => Query.hasDup q
+  | .join l r _ => From.hasDup l || From.hasDup r
+def Query.hasDup : Query → Bool
+  | .select _ frm _ _ _ _ _ =>
+    From.hasDup frm || (From.names frm).eraseDups.length != (From.names frm).length
+  | .compound _ l r _ _ _ _ => Query.hasDup l || Query.hasDup r
+end
+
+/-! ### Driver entry point -/
+
+/-- `engine.to_executable(relation)` followed by evaluation: conform, compile, run. -/
+def sqlRun (σtables : SqlState) (st : Store) (r : Rel) : String ⊕ (EvalOut × Bool) :=
+  if r.engine.kind != .sql then .inl "bad-sqlexec" else
+  match conform st defaultFuel r with
+  | .error e => .inl ("err compile " ++ e.name)
+  | .ok c =>
+    match compileSelect σtables defaultFuel (c.get r) 0 with
+    | .error e => .inl ("err compile " ++ e.name)
+    | .ok (q, _) =>
+      if q.hasDup then .inl "unspecified duplicate-from-names"
+      else if !q.accepts then .inl "err database"
+      else .inr (Query.eval σtables.tables q, true)
 
 end DafRel
